@@ -293,6 +293,9 @@ func (e *Engine) RunContracts(pc *PropertyCheck, timeout time.Duration, maxPaths
 		// clauses that produced no obligation on any path (e.g. every path aborted)
 		for _, c := range ct.Ensures {
 			n := fkey + "/ensures:" + c.Name
+			if c.Assumed {
+				continue // used at call sites, never an obligation (listed under assumptions)
+			}
 			if !seen[n] && (clauseServes(c, pc.ID) || len(c.Tags) == 0) {
 				st := "outside-subset"
 				d := incomplete
@@ -361,7 +364,7 @@ func (e *Engine) RunContracts(pc *PropertyCheck, timeout time.Duration, maxPaths
 // isOtherPropertyClause: the obligation is an ensures/onpanic clause tagged only with other
 // property ids (it is checked by those properties' runs).
 func isOtherPropertyClause(name, id string) bool {
-	for _, kind := range []string{"/ensures:", "/onpanic:", "/rowinv:", "/lemma:", "/mints:", "/burns:", "/cover:commutes:", "/cover:", "/commutes:"} {
+	for _, kind := range []string{"/ensures:", "/onpanic:", "/invariant:", "/rowinv:", "/lemma:", "/mints:", "/burns:", "/cover:commutes:", "/cover:", "/commutes:"} {
 		i := strings.Index(name, kind)
 		if i < 0 {
 			continue
@@ -741,6 +744,7 @@ func (e *Engine) writeEvidence(pc *PropertyCheck, level, technique string, claim
 		"machine integers (int64/uint64/int) are treated as mathematical integers: wrap-around is not modelled; sdkmath.Int 256-bit overflow panics are not modelled",
 		"gas metering, events, logging and telemetry are treated as effect-free",
 		"termination is not proved",
+		"a callee used by contract is taken to return (normally or with an error): a panic inside a by-contract callee is not propagated to a recover handler of its caller; panics are followed through code executed in line only",
 		"T9 the VC generator itself (mitigated by the must-fail corpus in /verif/selftest)",
 	}
 	assumptions = append(assumptions, extraAssumptions...)
